@@ -45,7 +45,7 @@ def buildIn : Sexp → Option (List Arg × List Call)
   | _ => none
 
 def defaultsIn (ss : Schemas) : Sexp → Option (List ((String × String) × GoVal))
-  | .list (.atom "defaults" :: xs) => xs.mapM fun (x : Sexp) => match x with
+  | .list (.atom "defaults" :: xs) => some <| xs.filterMap fun (x : Sexp) => match x with
     | .list [.str p, .str n, j] =>
       match Json.ofSexp j with
       | none => none
